@@ -50,7 +50,12 @@ def groups(tier, seed):
         for fam in ((1, 2, 1), (2, 1, 3)):
             out.append({"part": "infer", "nv": 2, "t": ti, "fam": list(fam), "card": 2, "emax": 1 if tier == "quick" else 2, "T": 2 if tier == "quick" else 3})
     for ti in range(len(templates(3))):
-        out.append({"part": "infer", "nv": 3, "t": ti, "fam": [1, 2, 1], "card": 2, "emax": 1, "T": 2})
+        doc = templates(3)[ti] == ([(2, 0), (0, 1)], [(2, 2)])
+        # the documented template (where the engine is mostly right) is explored deeper: pairs of evidence, zero entries
+        out.append({"part": "infer", "nv": 3, "t": ti, "fam": [1, 2, 1], "card": 2, "emax": 2 if doc else 1, "T": 2})
+        if doc:
+            out.append({"part": "infer", "nv": 3, "t": ti, "fam": [2, 1, 3], "card": 2, "emax": 2, "T": 2, "zeros": True})
+            out.append({"part": "infer", "nv": 3, "t": ti, "fam": [1, 1, 0], "card": 3, "emax": 1, "T": 2, "zeros": True})
     for ti in range(0, len(templates(2)), 3):
         out.append({"part": "infer", "nv": 2, "t": ti, "fam": [1, 1, 0], "card": 3, "emax": 1, "T": 2})
     for ti in range(0, len(templates(2)), 3):
@@ -59,10 +64,12 @@ def groups(tier, seed):
     return out
 
 
-def col(card, v, j, fam, slice_):
+def col(card, v, j, fam, slice_, zeros=False):
     a, b, k = fam
     al = ALPH[card]
     c = al[(a * v + b * j + k + 3 * slice_) % len(al)]
+    if zeros:
+        return list(c)  # keeps exact zeros / deterministic columns (P(evidence)>0 is decided by the reference)
     # keep strictly positive for conditioning: mix with uniform
     return [(x + F(1, 8)) / (1 + F(card, 8)) for x in c]
 
@@ -79,8 +86,8 @@ def build(g):
     pa1 = {v: pa0[v] + [("p", a) for a, b in inter if b == v] for v in range(nv)}  # + previous-slice parents
     cpt0, cpt1 = {}, {}
     for v in range(nv):
-        cpt0[v] = {k: col(card, v, j, fam, 0) for j, k in enumerate(product(*[range(card)] * len(pa0[v])))}
-        cpt1[v] = {k: col(card, v, j, fam, 1) for j, k in enumerate(product(*[range(card)] * len(pa1[v])))}
+        cpt0[v] = {k: col(card, v, j, fam, 0, g.get("zeros", False)) for j, k in enumerate(product(*[range(card)] * len(pa0[v])))}
+        cpt1[v] = {k: col(card, v, j, fam, 1, g.get("zeros", False)) for j, k in enumerate(product(*[range(card)] * len(pa1[v])))}
     dbn = DBN()
     dbn.add_nodes_from(names)
     for a, b in intra:
